@@ -307,7 +307,7 @@ class C13(Property):
                             if obs["mark"][(a, bb)] != ref["mark"][(a, bb)]:
                                 bad("mark-attachment-changed", pair=(a, bb), expected=ref["mark"][(a, bb)],
                                     observed=obs["mark"][(a, bb)])
-                sig.append((skip, obs["order"], sorted(obs["hmtx"].items())))
+                sig.append((skip, obs["order"], sorted(obs["hmtx"].items()), sorted(obs["render"].items()), sorted((str(k), v) for k, v in obs["kern"].items())))
         seen, out = set(), []
         for v in viols:
             k = (v["kind"], str(sorted(v["features"].items())))
